@@ -170,6 +170,7 @@ func (w *world) build(d *decSpec, pt *gpbft.PowerTable, own *gpbft.SupplementalD
 	must(err)
 	var mask []int
 	var sigs [][]byte
+	var kept []uint64
 	for _, s := range d.sigBy {
 		if s >= uint64(len(pt.Entries)) {
 			continue
@@ -178,7 +179,11 @@ func (w *world) build(d *decSpec, pt *gpbft.PowerTable, own *gpbft.SupplementalD
 		must(err)
 		mask = append(mask, int(s))
 		sigs = append(sigs, sig)
+		kept = append(kept, s)
 	}
+	// the description must say who really signed: indices outside the table the decision is built against (a
+	// decision retargeted to another instance) cannot sign and are not part of the aggregate
+	d.sigBy = kept
 	j.Signature, err = agg.Aggregate(mask, sigs)
 	must(err)
 	return j
